@@ -9,7 +9,7 @@ from hypothesis import strategies as st
 from hypothesis.stateful import RuleBasedStateMachine, initialize, precondition, rule
 
 from ..core import SimModelError, Trace, entropy_seam, rng_from
-from ..env import FakePool, Model, SimLikelihood, SimPrior, make_target
+from ..env import FakePool, Model, PoolShutdownError, SimLikelihood, SimPrior, make_target
 from ..rng import make_generator
 from .base import MachineMixin, Violation
 
@@ -100,12 +100,13 @@ class Interp:
                                 f"{ {k: now.get(k) for k in keys} } but were { {k: before.get(k) for k in keys} } on entry", w)
 
     # ------------------------------------------------------------------- ops
-    def op_enter_pool(self, close_pool: bool, parallelize_prior: bool, fail_map_at):
+    def op_enter_pool(self, close_pool: bool, parallelize_prior: bool, fail_map_at, fail_close=None):
         if len(self.stack) >= MAX_DEPTH:
             return
-        self.ops.append(("enter_pool", {"close_pool": close_pool, "parallelize_prior": parallelize_prior, "fail_map_at": fail_map_at}))
+        self.ops.append(("enter_pool", {"close_pool": close_pool, "parallelize_prior": parallelize_prior, "fail_map_at": fail_map_at,
+                                        "fail_close": fail_close}))
         snap = self._snapshot()
-        pool = FakePool(fail_map_at=fail_map_at)
+        pool = FakePool(fail_map_at=fail_map_at, fail_close=fail_close)
         cm = self.A.enable_pool(pool, close_pool=close_pool, parallelize_prior=parallelize_prior)
         got = cm.__enter__()
         self.stack.append({"kind": "enable_pool", "cm": cm, "snap": snap, "pool": pool, "close_pool": close_pool})
@@ -172,6 +173,7 @@ class Interp:
     def _exit_level(self, exc):
         lvl = self.stack.pop()
         how = "exception" if exc is not None else "normal"
+        new_exc = exc
         try:
             if exc is None:
                 suppressed = lvl["cm"].__exit__(None, None, None)
@@ -179,9 +181,17 @@ class Interp:
                 suppressed = lvl["cm"].__exit__(type(exc), exc, exc.__traceback__)
         except BaseException as e:  # noqa: BLE001
             if e is not exc:
+                # the pool's own shutdown failing is one more exit path: everything must have been put back all the same,
+                # and the failure (not a Violation) is what the enclosing bodies now see
+                shutdown_failed = (lvl["kind"] == "enable_pool" and lvl["close_pool"] and isinstance(e, PoolShutdownError)
+                                   and getattr(lvl["pool"], "fail_close", None) is not None)
+                how = how + "+pool_shutdown_failed" if shutdown_failed else how
                 self._check_restored(lvl, lvl["snap"], how)
-                raise Violation("c19.exit_raised", f"leaving {lvl['kind']} ({how}) raised {type(e).__name__}: {e}",
-                                {"kind": lvl["kind"], "exit": how})
+                if not shutdown_failed:
+                    raise Violation("c19.exit_raised", f"leaving {lvl['kind']} ({how}) raised {type(e).__name__}: {e}",
+                                    {"kind": lvl["kind"], "exit": how})
+                self.col.fault("pool_shutdown_failed:" + lvl["pool"].fail_close)
+                new_exc = e
             suppressed = False
         if exc is not None and suppressed:
             raise Violation("c19.exception_swallowed", f"{lvl['kind']} swallowed the exception raised in its body", {"kind": lvl["kind"]})
@@ -189,25 +199,29 @@ class Interp:
         if lvl["kind"] == "enable_pool":
             p = lvl["pool"]
             want = 1 if lvl["close_pool"] else 0
-            if p.n_close != want or p.n_join != want:
+            want_join = 0 if (want and getattr(p, "fail_close", None) == "close") else want
+            if p.n_close != want or p.n_join != want_join:
                 raise Violation("c19.pool_close", f"enable_pool(close_pool={lvl['close_pool']}) left the pool with close={p.n_close} join={p.n_join} "
                                 f"after a {how} exit", {"close_pool": lvl["close_pool"], "exit": how})
         if lvl["kind"] == "enable_pool" and not lvl["close_pool"] and exc is None and not lvl.get("reused"):
             self.reusable = lvl
         self.col.nontrivial.add((lvl["kind"], how if exc is None else type(exc).__name__, len(self.stack) + 1, self.primed,
                                  bool(lvl.get("built_earlier")), bool(lvl.get("reused"))))
+        return new_exc
 
     def op_exit_normal(self):
         if not self.stack:
             return
         self.ops.append(("exit_normal", {}))
-        self._exit_level(None)
+        e = self._exit_level(None)
+        if e is not None:
+            self._unwind(e)
 
     def _unwind(self, exc):
         """An exception raised at the current body position propagates through every enclosing context."""
         self.col.fault("body_exception@depth%d" % len(self.stack))
         while self.stack:
-            self._exit_level(exc)
+            exc = self._exit_level(exc)
 
     def op_raise_in_body(self, base_exception=False):
         if not self.stack:
@@ -243,9 +257,10 @@ class Interp:
             self.model.crash_like_at = None
 
     def finish(self):
-        # leave whatever is still open, normally
+        # leave whatever is still open, normally (a failing pool shutdown turns the rest into an unwinding)
+        e = None
         while self.stack:
-            self._exit_level(None)
+            e = self._exit_level(e)
 
     def close(self):
         if self._es is not None:
@@ -263,9 +278,10 @@ def make_machine(interp_factory, workdir, col):
         def init(self, primed, seed):
             self.do("init", primed=primed, seed=seed)
 
-        @rule(close_pool=st.booleans(), parallelize_prior=st.booleans(), fail_map_at=st.one_of(st.none(), st.none(), st.integers(0, 3)))
-        def enter_pool(self, close_pool, parallelize_prior, fail_map_at):
-            self.do("enter_pool", close_pool=close_pool, parallelize_prior=parallelize_prior, fail_map_at=fail_map_at)
+        @rule(close_pool=st.booleans(), parallelize_prior=st.booleans(), fail_map_at=st.one_of(st.none(), st.none(), st.integers(0, 3)),
+              fail_close=st.sampled_from([None, None, None, "close", "join"]))
+        def enter_pool(self, close_pool, parallelize_prior, fail_map_at, fail_close):
+            self.do("enter_pool", close_pool=close_pool, parallelize_prior=parallelize_prior, fail_map_at=fail_map_at, fail_close=fail_close)
 
         @rule(file_id=st.integers(0, 2), every=st.integers(1, 3), save_config=st.booleans())
         def enter_auto(self, file_id, every, save_config):
